@@ -611,6 +611,8 @@ func (p *pp) handleMethods(verb rune) (handled bool)
   requires B(p) && WP(p.fmt)
   -- an operand that is a SafeValue reaches method dispatch only under a context (Safe, or an enclosing Unsafe)
   requires [C05,C06] hasType(p.arg, "interfaces.SafeValue") ==> p.buf.gctx != 0
+  -- ... and so does an operand whose type is registered as safe
+  requires [C05] !isnil(p.arg) && safeTypeRegistry[reflect.TypeOf(p.arg)] ==> p.buf.gctx != 0
   may-panic
   class 2 before "p.fmt.fmtS(stringer.GoString())"
   ensures-always B(p) && Same(p) && WP(p.fmt)
